@@ -82,6 +82,8 @@ def concretize(prog, pr, model=None):
     model = model or path_model(pr)
     if pr.notes['input']['mode'] == 'front':
         return concretize_front(prog, pr, model)
+    if pr.notes['input']['mode'] == 'front-item':
+        return concretize_front_item(prog, pr, model)
     attr, item, ex2 = drive.rebuild_input(prog, pr)
     P = synprint.Printer(name_of=namer(model), resolve=lambda s: ex2.force(s))
     info = pr.notes['input']
@@ -294,3 +296,48 @@ def determinism_check(cases, name='s_determinism'):
                               first=rsview.show(unsplit(json.loads(distinct[0])))[:600] if distinct[0] != 'PANIC' else 'PANIC',
                               second=rsview.show(unsplit(json.loads(distinct[1])))[:600] if distinct[1] != 'PANIC' else 'PANIC'))
     return len(outputs), n_exp, diffs
+
+
+def concretize_front_item(prog, pr, model):
+    """rebuild the token list with the path's decisions, defaults (first alternative) elsewhere; END (alternative 0) ends the list"""
+    from . import front
+    info = pr.notes['input']
+    ex2 = sexec.Exec(prog, [])
+    ex2.decisions = dict(pr.decisions)
+    ex2.decide = lambda n, label: 0
+    ex2.assume = lambda c: None
+    if info.get('layout'):
+        cells = []
+        fixed_fn = [('I', 'pub'), ('I', 'fn'), ('I', 'g0'), ('G', '(', list(front.PAREN_GROUPS['(deps: &impl B0)'])), ('G', '{', [])]
+        for part in info['layout']:
+            if part == 'FN':
+                cells += list(fixed_fn)
+            elif part == 'STRUCT':
+                cells += [('I', 'struct'), ('I', 'Y'), ('P', ';')]
+            else:
+                cells += front.sym_item_segments('it.' + part, 'reduced' if part.startswith('r') else 'full')
+        front.expand_segments(ex2, cells, 10 ** 6)
+    else:
+        cells = front.sym_item_tokens('t', info['n'])
+    nm0 = namer(model)
+
+    def nm(term):
+        return term if isinstance(term, str) else nm0(term)
+    toks = []
+    for i in range(len(cells) if info.get('layout') else info['n']):
+        t = ex2.force_slot(cells, i)
+        if front.tk_is_end(t):
+            break
+        toks += front.tk_flat(t, lambda s_: ex2.force(s_), nm) if isinstance(t, Obj) else [front.view_tok(t)]
+    what = info['what']
+    if what == 'mod':
+        item_toks = [('I', 'mod', 'input'), ('I', 'm', 'input'), ('G', '{', toks, 'input')]
+    elif what == 'impl':
+        item_toks = [('I', 'impl', 'input'), ('I', 'FooImpl', 'input'), ('I', 'for', 'input'), ('I', 'MyImpl', 'input'), ('G', '{', toks, 'input')]
+    else:
+        item_toks = toks
+    P = synprint.Printer(name_of=namer(model), resolve=lambda s_: ex2.force(s_))
+    P.known = nm
+    attr_src = 'Foo' if what in ('mod', 'fn') else ''
+    return dict(macro='entrait', attr_src=attr_src, item_src=to_source(item_toks), model=model, attr=None, item=None,
+                item_flat=rsview.split_flat(item_toks), printer=P)
